@@ -207,8 +207,10 @@ def check_graph(ctx, store, pg, g, rels, classes, sample_q=None, rng=None):
                 continue
             others = [x for x in g.ids if x not in (s, z)]
             hop_sets = [[]] + [[h] for h in others] + [list(h) for h in itertools.combinations(others, 2)]
+            # unusual but legal hop lists: an end node named as a hop, a hop named twice
+            hop_sets += [[s], [z], [s, z], [z, z]] + [[h, h] for h in others[:2]] + [[s, h] for h in others[:2]] + [[h, z] for h in others[:2]]
             for hops in hop_sets:
-                if not take(0.5):
+                if not take(1.0):
                     continue
                 for hh in ([hops] if len(hops) < 2 else [hops, hops[::-1]]):
                     q = {'q': 'path_with_hops', 'a': s, 'z': z, 'hops': hh}
